@@ -7,6 +7,12 @@ import subprocess
 ROOT = os.path.dirname(os.path.dirname(os.path.abspath(__file__)))
 
 CHECKS = {
+    "C04": dict(
+        level="model_checking",
+        technique="executable TLA+ transcription of GM/T 0004 (SM3.tla, KAT-checked) evaluated by TLC as oracle; HashObj state machine model-checked; all TLC-generated Write/Sum/Reset behaviours replayed on sm3.New() and every event validated by TLC (HashObjTrace); HMAC/PBKDF2 tables from TLC compared with crypto/hmac and x/crypto/pbkdf2 over sm3.New",
+        text="TLC enumerates every Write/Sum/Reset sequence of depth 3 (and simulated depth-8 sequences) over the write sizes around the padding boundaries; each is run on a real hash object and every returned value (prefix + digest, write counts) is validated by TLC against the HashObj specification whose digest oracle is the TLA+ transcription of the standard, tabulated by TLC for every stream length reached; one-shot digests for every length 0..N and HMAC-SM3 / PBKDF2-SM3 tables are compared too.",
+        note="Trusts TLC + Bitwise overrides and the two GM/T 0004 vectors that anchor SM3.tla. One message content per length (plus all-0x00 / all-0xff at boundary lengths); multi-megabyte streams are not evaluated by TLC.",
+        ref="DESIGN.md section 5 C04"),
     "C19": dict(
         level="model_checking",
         technique="TLA+ spec PadStream + refinement PadStreamImpl checked by TLC; TLC-generated environments replayed on the real objects; recorded traces validated by TLC (PadStreamTrace)",
